@@ -1,6 +1,7 @@
 from __future__ import annotations
 
 import configparser
+import errno
 import os
 import os.path
 import typing
@@ -50,6 +51,10 @@ class VFS_Real:
         self, selector: str, mode: str, errors: typing.Optional[str] = None
     ) -> typing.IO:
         filepath = os.fsencode(self.getfspath(selector))
+        # Documents and their metadata are regular files.  Opening a FIFO
+        # that nobody writes to would block the request forever.
+        if os.path.exists(filepath) and not os.path.isfile(filepath):
+            raise OSError(errno.ENXIO, os.strerror(errno.ENXIO), selector)
         return open(filepath, mode, errors=errors)
 
     def listdir(self, selector: str) -> typing.List[str]:
